@@ -13,6 +13,7 @@ package vsched
 
 import (
 	"fmt"
+	"reflect"
 	"runtime"
 	"sort"
 	"strings"
@@ -126,6 +127,9 @@ type Sched struct {
 	// KeepEnv: keep firing timers after the root thread finished while no
 	// program thread is enabled (default false: the execution ends there).
 	KeepEnv bool
+	// PermuteMaps: iteration order of 2-3 element maps is an explorer choice.
+	PermuteMaps bool
+	maps        map[uintptr]*mapOrder
 }
 
 // S is the scheduler of the execution in progress (nil outside executions).
@@ -153,6 +157,7 @@ type Options struct {
 	Trace    bool
 	KeepEnv  bool
 	StartAt  time.Duration // initial offset of the virtual clock from Epoch
+	PermuteMaps bool
 }
 
 // Run executes body as the root controlled thread, following the choice prefix
@@ -161,7 +166,7 @@ func Run(prefix []int, opt Options, body func()) *Outcome {
 	if S != nil {
 		panic("vsched: nested Run")
 	}
-	s := &Sched{yield: make(chan struct{}), prefix: prefix, out: &Outcome{}, maxSteps: opt.MaxSteps, trace: opt.Trace, objIDs: map[any]int{}, KeepEnv: opt.KeepEnv, now: opt.StartAt}
+	s := &Sched{yield: make(chan struct{}), prefix: prefix, out: &Outcome{}, maxSteps: opt.MaxSteps, trace: opt.Trace, objIDs: map[any]int{}, KeepEnv: opt.KeepEnv, now: opt.StartAt, PermuteMaps: opt.PermuteMaps}
 	if s.maxSteps == 0 {
 		s.maxSteps = 20000
 	}
@@ -484,13 +489,79 @@ func ThreadID() int {
 	return S.cur.id
 }
 
-// SortedKeys returns the keys of a map in sorted order (rewritten map ranges:
-// iteration order is owned instead of sampled).
-func SortedKeys[K comparable, V any](m map[K]V) []K {
-	ks := make([]K, 0, len(m))
-	for k := range m {
-		ks = append(ks, k)
+// ---- owned map iteration order ------------------------------------------------------
+//
+// Rewritten `for k, v := range m` loops iterate over Keys(m): the keys in
+// insertion order (insertions in rewritten files are announced with NoteKey;
+// unknown keys follow in printable order). When the map has 2 or 3 keys the
+// order is additionally an explorer choice (free), so that every iteration
+// order Go may produce is covered instead of one being sampled.
+
+type mapOrder struct {
+	keys []any
+}
+
+func mapID(m any) uintptr { return reflect.ValueOf(m).Pointer() }
+
+// NoteKey records the insertion of k into m (rewritten `m[k] = v`).
+func NoteKey[K comparable, V any](m map[K]V, k K) {
+	s := S
+	if s == nil || m == nil {
+		return
 	}
-	sort.Slice(ks, func(i, j int) bool { return fmt.Sprint(ks[i]) < fmt.Sprint(ks[j]) })
+	if _, exists := m[k]; exists {
+		return
+	}
+	if s.maps == nil {
+		s.maps = map[uintptr]*mapOrder{}
+	}
+	id := mapID(m)
+	mo := s.maps[id]
+	if mo == nil {
+		mo = &mapOrder{}
+		s.maps[id] = mo
+	}
+	mo.keys = append(mo.keys, k)
+}
+
+// Keys returns the keys of m in an owned order.
+func Keys[K comparable, V any](m map[K]V) []K {
+	ks := make([]K, 0, len(m))
+	seen := map[K]bool{}
+	if s := S; s != nil && s.maps != nil && m != nil {
+		if mo := s.maps[mapID(m)]; mo != nil {
+			for _, k := range mo.keys {
+				kk := k.(K)
+				if _, ok := m[kk]; ok && !seen[kk] {
+					seen[kk] = true
+					ks = append(ks, kk)
+				}
+			}
+		}
+	}
+	var rest []K
+	for k := range m {
+		if !seen[k] {
+			rest = append(rest, k)
+		}
+	}
+	sort.Slice(rest, func(i, j int) bool { return fmt.Sprint(rest[i]) < fmt.Sprint(rest[j]) })
+	ks = append(ks, rest...)
+	if S != nil && S.PermuteMaps && !S.aborting && (len(ks) == 2 || len(ks) == 3) {
+		perms := [][]int{{0, 1, 2}, {1, 0, 2}, {0, 2, 1}, {2, 0, 1}, {1, 2, 0}, {2, 1, 0}}
+		n := 2
+		if len(ks) == 3 {
+			n = 6
+		}
+		c := S.choose(n, false, true, -1, n, "map-order")
+		out := make([]K, len(ks))
+		for i := range ks {
+			out[i] = ks[perms[c][i]]
+		}
+		return out
+	}
 	return ks
 }
+
+// SortedKeys is kept as an alias of Keys for rewritten code.
+func SortedKeys[K comparable, V any](m map[K]V) []K { return Keys(m) }
